@@ -369,6 +369,22 @@ def r5_quoting(ctx):
                 ctx.check(ok, 'C13.R5', f'{func_label(f)}|s3-canonical-uri-shape', loc(f, c), f'S3.{mname}: canonical URI is /<bucket>/<name> (quoting happens once, in _prepare_request)', f'S3.{mname}: canonical URI `{src(u, 60)}` is pre-processed (double or missing quoting)')
 
 
+def _not_found_edges(cfg, handler):
+    """CFG edge nodes inside `handler` on which the caught status is / is not NOT_FOUND"""
+    nf, other = [], []
+    for i in ast.walk(handler):
+        if isinstance(i, ast.If) and isinstance(i.test, ast.Compare) and len(i.test.ops) == 1:
+            sides = [i.test.left, i.test.comparators[0]]
+            if any(isinstance(x, ast.Attribute) and x.attr == 'NOT_FOUND' for x in sides) or any(isinstance(x, ast.Constant) and x.value == 404 for x in sides):
+                if isinstance(i.test.ops[0], (ast.Eq, ast.Is)):
+                    nf += cfg.nodes_of(i, 'true')
+                    other += cfg.nodes_of(i, 'false')
+                elif isinstance(i.test.ops[0], (ast.NotEq, ast.IsNot)):
+                    nf += cfg.nodes_of(i, 'false')
+                    other += cfg.nodes_of(i, 'true')
+    return nf, other
+
+
 def r7_exists_answer(ctx, rule='C13.R7'):
     """exists(): True only after a successful request made in this call, False only
     for the service's 'not found' answer, everything else propagates; no memo."""
@@ -400,9 +416,9 @@ def r7_exists_answer(ctx, rule='C13.R7'):
                 good = bool(req_ok) and all(cfg.set_dominates(req_ok, x) for x in cfg.nodes_of(r, 'stmt'))
                 ctx.check(good, rule, f'{func_label(f)}|true-only-after-successful-request', site, f'{ci.name}.exists returns True only after a request of this call succeeded', f'{ci.name}.exists can return True without a successful request in this call (e.g. from a remembered answer or for an error status): a missing object is reported as present and its upload is skipped')
             elif isinstance(v, ast.Constant) and v.value is False:
-                g = [a for a in ancestors(r) if isinstance(a, ast.If)]
                 h = [a for a in ancestors(r) if isinstance(a, ast.ExceptHandler)]
-                good = bool(g) and bool(h) and 'NOT_FOUND' in src(g[0].test) and '==' in src(g[0].test) and any(x.endswith('HTTPStatusError') for x in handler_catches(h[0]))
+                nf, _other = _not_found_edges(cfg, h[0]) if h else ([], [])
+                good = bool(nf) and bool(h) and any(x.endswith('HTTPStatusError') for x in handler_catches(h[0])) and all(cfg.set_dominates(nf, x) for x in cfg.nodes_of(r, 'stmt'))
                 ctx.check(good, rule, f'{func_label(f)}|false-only-for-not-found', site, f'{ci.name}.exists returns False only for the NOT_FOUND status', f'{ci.name}.exists returns False for something else than the NOT_FOUND answer')
             else:
                 ctx.fail(rule, f'{func_label(f)}|exists-returns-computed-value', site, f'{ci.name}.exists returns `{src(v, 60) if v is not None else None}`: the answer is not (True after success | False for NOT_FOUND); statuses such as 403/5xx would be turned into an answer instead of an error')
@@ -411,8 +427,10 @@ def r7_exists_answer(ctx, rule='C13.R7'):
             if isinstance(t, ast.Try):
                 for hd in t.handlers:
                     if any(x.endswith('HTTPStatusError') for x in handler_catches(hd)):
-                        last = hd.body[-1] if hd.body else None
-                        ctx.check(isinstance(last, ast.Raise) and last.exc is None, rule, f'{func_label(f)}|other-statuses-propagate', loc(f, hd), f'{ci.name}.exists re-raises every status error other than NOT_FOUND', f'{ci.name}.exists does not re-raise other status errors: 403 / 5xx answers are turned into an existence answer')
+                        nf, other = _not_found_edges(cfg, hd)
+                        # every path that is not the NOT_FOUND answer leaves the handler by raising
+                        propagates = bool(nf) and bool(other) and all(cfg.path(o, [cfg.exit]) is None for o in other) and all(cfg.path(hn, [cfg.exit], avoid=nf) is None for hn in cfg.nodes_of(hd, 'handler'))
+                        ctx.check(propagates, rule, f'{func_label(f)}|other-statuses-propagate', loc(f, hd), f'{ci.name}.exists re-raises every status error other than NOT_FOUND', f'{ci.name}.exists does not re-raise other status errors: 403 / 5xx answers are turned into an existence answer')
         # no instance memo consulted
         reads = {a.attr for a in ast.walk(f.node) if isinstance(a, ast.Attribute) and isinstance(a.value, ast.Name) and a.value.id == 'self' and isinstance(a.ctx, ast.Load)}
         extra = reads - {'_auth', '_client', '_get_bucket', '_make_request', 'bucket_name', '_bucket', 'path'}
